@@ -160,7 +160,7 @@ class Judge:
                        judge='exact', want=[want.numerator, want.denominator]
                        if isinstance(want, Fraction) else [want, 1],
                        got=show(got)),
-                  (abs(args[0]), len(repr(args[0]))))
+                  (len(repr(args[0])), abs(args[0])))
         return False
 
     def member(self, fn, path, args, got, quarters, err_ok, cls):
@@ -179,7 +179,7 @@ class Judge:
                   dict(fn=fn, path=path, args=list(args), cls=cls,
                        judge='member', quarters=sorted(quarters), err_ok=err_ok,
                        got=show(got)),
-                  (abs(args[0]), len(repr(args[0]))))
+                  (len(repr(args[0])), abs(args[0])))
         return False
 
     def mod(self, path, args, got, want, strict, cls):
@@ -204,7 +204,7 @@ class Judge:
                   dict(fn='MOD', path=path, args=[n, m], cls=cls, judge='mod',
                        want=[Fraction(want).numerator, Fraction(want).denominator],
                        strict=strict, got=show(got)),
-                  (abs(n) + abs(m), len(repr(n))))
+                  (len(repr(n)) + len(repr(m)), abs(n) + abs(m)))
         return False
 
     def law(self, fn, path, args, ok, text, cls='float'):
@@ -212,7 +212,7 @@ class Judge:
         if not ok:
             self.fail(fn, path, f'{fn}({", ".join(map(repr, args))}) [{path}, {cls}]: {text}',
                       dict(fn=fn, path=path, args=list(args), cls=cls, judge='law',
-                           law=text), (abs(args[0]), len(repr(args[0]))))
+                           law=text), (len(repr(args[0])), abs(args[0])))
         return ok
 
     def flush(self):
@@ -418,7 +418,7 @@ def float_laws(J, F, rnd, n):
     """Magnitude laws only, judged against the shortest decimal rendering."""
     ctx = decimal.Context(prec=60)
     for x in float_samples(rnd, n):
-        if x == 0 or not math.isfinite(x):
+        if not 1e-9 <= abs(x) <= 1e9:     # no subnormals (EVEN(5e-324): x/2 = 0), no overflow
             continue
         d = rnd.randrange(-6, 7)
         D = ctx.create_decimal(repr(x))
